@@ -278,7 +278,7 @@ class CoordinateList(CompressionFormat):
     def getSize(self): 
         # self.printFiber()
         if self.next_fmt != None and self.next_fmt.encodeUpperPayload():
-            assert(len(self.payloads) > 0)
+            assert(len(self.payloads) == len(self.coords))
 
         size = len(self.coords) + len(self.occupancies)
         # Don't need to store occupancies if lower level is U
